@@ -40,6 +40,9 @@ def c15(ctx):
     ctx.extra["replay_summary"] = summary
     for k in range(summary.get("nontrivial", 0)):
         ctx.nontrivial.add(k)
+    # following on the own terminals of real devices (Devices.tla family follow): return values, and the own slots after an aborted update
+    import p_devices
+    p_devices.run_devices(ctx, [("devfollow", p_devices.dev_cfg("follow", [], 3 if q else 4, rich=not q), 4, None)], 1 if q else 3, observe="ret")
     for name in ("exh_follow", "exh_history", "exh_const"):
         b = vlib.read_ndjson(os.path.join(ctx.out, name + ".ndjson"), limit=9000)[-1]
         ctx.sample({"family": b["family"], "steps": b["steps"]})
@@ -58,6 +61,10 @@ def c15(ctx):
                 "what impl_set receives and (without failures) on the crate's ConstantGetter; history: the five constructors, set_delta, "
                 "set_time, clock advance, clock failure and get over a history whose value is the time asked for (its own datum carries a "
                 "different timestamp), under 6 affine clock concretisations including bases near i64::MIN / MAX; const: ConstantGetter "
-                "get / set / follow / update and TimeGetterFromGetter. Non-trivial = an update while following / a live adapter / a getter change.")
+                "get / set / follow / update and TimeGetterFromGetter; devices (Devices.tla family follow): the own terminals of a real inverter, "
+                "gear train, axle and differential follow scripted getters of state data and command data (error / absent / fresh / old datum), "
+                "Device::update must return the first error in terminal order (command getter before state getter), leave the terminals behind "
+                "it untouched and otherwise store exactly the getters' data before computing. "
+                "Non-trivial = an update while following / a live adapter / a getter change.")
     ctx.assumptions += ["clock values and offsets are small integers in the specification, mapped affinely to i64 without overflow"]
     ctx.exhaustive = False
